@@ -8,8 +8,10 @@
 (* with n nodes; SpecA visits one state per (AST, env) up to MaxSize nodes and checks that Eval and     *)
 (* Deps are total and well-typed (EvalTotalA).                                                          *)
 (*                                                                                                      *)
-(* Part B (freshness): a template `cfg.expr` over machine variables, player variables, a setting and    *)
-(* device attributes; a subscriber holding the last value, the set of keys the last evaluation depends  *)
+(* Part B (freshness): a template `cfg.expr` over machine variables, player variables, settings and     *)
+(* device attributes (settings are a source of their own: a setting is stored in a backing machine      *)
+(* variable whose name may differ from the setting's, reads as its default while that variable is unset *)
+(* or holds no valid value, and changes through the settings controller or through the variable); a subscriber holding the last value, the set of keys the last evaluation depends  *)
 (* on (`reads`) and whether its future has completed (`pending`); actions per public call:              *)
 (* Set*(var, v), Turn, GameStart, GameEnd, Reeval (the _update_subscription step), Post (conditional    *)
 (* event handler, evaluated at post time).  `auto` is a consumer that re-evaluates in its done-callback *)
@@ -18,6 +20,7 @@ EXTENDS Integers, Sequences, FiniteSets, TLC
 CONSTANTS Configs,      \* templates: records [id, expr, vars, ep, ge]
           Envs,         \* initial environments
           MVals, PVals, SVals, WVals, CVals,   \* values Set may assign (machine var, player var, setting, switch, counter)
+          SMVals,       \* values assigned directly to the machine variable behind a setting (valid or not)
           MaxOps,       \* number of steps (part B)
           Spurious      \* subset of BOOLEAN: may a step complete the future although nothing read changed
 VARIABLES cfg, env, sub, auto, nops, act
@@ -125,12 +128,23 @@ Index(a, i) ==
          IN IF j < 0 \/ j >= n THEN Out                 \* IndexError: no claim
             ELSE IF a.k = "tup" THEN a.v[j + 1] ELSE S(<<a.v[j + 1]>>)
 \* ---------------------------------------------------------------- environment -----------------------------
-\* env = [ma, mb, st, sw, cv, kp : value, px : <<value, value>>, game : BOOLEAN, cur : 1..2]
-\* variables: ma mb (machine variables; NoneV = unset), px (current player's x), p2x (players[1].x), st (setting),
-\* sw (switch state), cv (counter value), kp (event parameter present), kq (name that is not defined)
+\* env = [ma, mb, st, sq, sc, sw, cv, kp : value, px : <<value, value>>, game : BOOLEAN, cur : 1..2]
+\* variables: ma mb (machine variables; NoneV = unset), px (current player's x), p2x (players[1].x), st sq sc (settings),
+\* mq (the machine variable behind the setting sq, read as a machine variable), sw (switch state), cv (counter value),
+\* kp (event parameter present), kq (name that is not defined)
+\* Settings (settings_controller.py).  env[s] is the value of the machine variable the setting s is stored in (NoneV =
+\* that variable does not exist).  st is stored under its own name, sq under a differently named variable (the
+\* `machine_var:` option), sc is an entry added by code with a machine variable of its own.  Every setting has the
+\* value table {1, 2, 3}; membership is Python's `in` on the keys of a dict (so True counts as 1).
+SNames == {"st", "sq", "sc"}
+SValid == {I(1), I(2), I(3)}
+SDefault(s) == CASE s = "st" -> I(2) [] s = "sq" -> I(1) [] s = "sc" -> I(3)
+SettingVal(s, x) == IF \E v \in SValid : PyEq(x, v) THEN x ELSE SDefault(s)
 Lookup(n, en) == CASE n = "px" -> IF en.game THEN en.px[en.cur] ELSE Err("missing")
                    [] n = "p2x" -> IF en.game THEN en.px[2] ELSE Err("missing")
                    [] n = "kq" -> Err("noname")
+                   [] n \in SNames -> SettingVal(n, en[n])
+                   [] n = "mq" -> en.sq
                    [] OTHER -> en[n]
 \* the notification keys a variable access depends on
 KeysOf(n, en) == CASE n = "px" -> {"turn"} \cup (IF en.game THEN {IF en.cur = 1 THEN "px1" ELSE "px2"} ELSE {})
@@ -235,8 +249,17 @@ World(en2, keys, a, multi) ==
     /\ nops' = nops + 1 /\ act' = a /\ UNCHANGED cfg
 SetM(n, v) == /\ n \in {"ma", "mb"} /\ n \in cfg.vars
               /\ World([env EXCEPT ![n] = v], IF Changed(env[n], v) THEN {n} ELSE {}, [op |-> "set", var |-> n, p |-> 0, v |-> v], FALSE)
-SetS(v) == /\ "st" \in cfg.vars
-           /\ World([env EXCEPT !.st = v], IF Changed(env.st, v) THEN {"st"} ELSE {}, [op |-> "set", var |-> "st", p |-> 0, v |-> v], FALSE)
+\* Settings.  The machine variable behind the setting s goes from `old` to `new`: the setting changed if its value
+\* did (key s); a template that read that variable as machine.<name> depends on the variable itself (key "mq").
+UsesS(s) == s \in cfg.vars \/ (s = "sq" /\ "mq" \in cfg.vars)
+SKeys(s, old, new) == (IF Changed(SettingVal(s, old), SettingVal(s, new)) THEN {s} ELSE {})
+                      \cup (IF s = "sq" /\ Changed(old, new) THEN {"mq"} ELSE {})
+\* settings.set_setting_value(s, v): only values of the table are accepted
+SetS(s, v) == /\ s \in SNames /\ UsesS(s) /\ v \in SValid
+              /\ World([env EXCEPT ![s] = v], SKeys(s, env[s], v), [op |-> "set", var |-> s, p |-> 0, v |-> v], FALSE)
+\* set_machine_var(<machine variable of s>, v): any value; the setting reads as its default if v is not in the table
+SetSM(s, v) == /\ s \in SNames /\ UsesS(s)
+               /\ World([env EXCEPT ![s] = v], SKeys(s, env[s], v), [op |-> "setm", var |-> s, v |-> v], FALSE)
 SetW(v) == /\ "sw" \in cfg.vars
            /\ World([env EXCEPT !.sw = v], IF Changed(env.sw, v) THEN {"sw"} ELSE {}, [op |-> "set", var |-> "sw", p |-> 0, v |-> v], FALSE)
 SetC(v) == /\ "cv" \in cfg.vars
@@ -264,7 +287,8 @@ Post == /\ nops < MaxOps /\ nops' = nops + 1 /\ act' = [op |-> "post", fired |->
         /\ auto' = [auto EXCEPT !.must = FALSE, !.may = FALSE]
         /\ UNCHANGED <<cfg, env, sub>>
 Next == \/ \E n \in {"ma", "mb"}, v \in MVals : SetM(n, v)
-        \/ \E v \in SVals : SetS(v)
+        \/ \E s \in SNames, v \in SVals : SetS(s, v)
+        \/ \E s \in SNames, v \in SMVals : SetSM(s, v)
         \/ \E v \in WVals : SetW(v)
         \/ \E v \in CVals : SetC(v)
         \/ \E p \in 1..2, v \in PVals : SetP(p, v)
@@ -279,7 +303,7 @@ IsVal(x) == CASE x.k = "int" -> x.v \in Int
               [] x.k = "err" -> x.e \in {"type", "zerodiv", "missing", "noname"}
               [] x.k \in {"none", "out"} -> TRUE
               [] OTHER -> FALSE
-AllKeys == {"ma", "mb", "st", "sw", "cv", "px1", "px2", "turn", "plist"}
+AllKeys == {"ma", "mb", "st", "sq", "sc", "mq", "sw", "cv", "px1", "px2", "turn", "plist"}
 \* part A: Eval and Deps are total and well-typed on every (AST, env)
 EvalTotal == IsVal(Eval(cfg.expr, env)) /\ Deps(cfg.expr, env) \subseteq AllKeys
 \* Part A as a specification of its own.  Building the set of all ASTs as one TLC value is slow, so the ASTs are
@@ -315,7 +339,9 @@ EvalTotalA == EvalTotal /\ VEq(sub.last, Res(cfg.expr, env)) /\ sub.reads = Deps
 NoStaleAtRest == ~sub.pending => VEq(sub.last, Res(cfg.expr, env))
 AutoFresh == VEq(auto.last, Res(cfg.expr, env))
 \* after a change to anything the last evaluation depends on, the future completes
-KeysChanged == {n \in {"ma", "mb", "st", "sw", "cv"} : Changed(env[n], env'[n])}
+KeysChanged == {n \in {"ma", "mb", "sw", "cv"} : Changed(env[n], env'[n])}
+               \cup {s \in SNames : Changed(SettingVal(s, env[s]), SettingVal(s, env'[s]))}
+               \cup (IF Changed(env.sq, env'.sq) THEN {"mq"} ELSE {})
                \cup (IF env.game /\ env'.game /\ Changed(env.px[1], env'.px[1]) THEN {"px1"} ELSE {})
                \cup (IF env.game /\ env'.game /\ Changed(env.px[2], env'.px[2]) THEN {"px2"} ELSE {})
                \cup (IF env.game # env'.game \/ env.cur # env'.cur THEN {"turn"} ELSE {})
